@@ -53,6 +53,12 @@ ROTATION real: frappy.logging.LogfileHandler (mlzlog.LogfileHandler) doRollover 
          rollovers); thorough also: date jumps of 2 days, a second doRollover on the same day, and the production path
          (the rollover triggered by emit at midnight instead of a direct call).
          One record is written before the first rollover (mlzlog's doRollover needs an open stream) and one after each.
+  sub-check `records`: record histories through the production path only (handler.emit on the virtual clock decides
+         when to roll over): every sequence of 2 (thorough: 3) steps (gap of 1, 2 or 3 days, then 1, 2 or 3 records)
+         x max_days 0..7 x start directories (empty, every window day, every second day; thorough: 3 more) x foreign
+         sets (none, all four; thorough: 2 more).  A gap of g days makes mlzlog roll over g times in a row - once per
+         record - to the same (today's) file.  Judged after EVERY record: F1, and every record written so far is still
+         in its file (for today's file and the files that have to be kept).
 
 Oracle (from the statement)
   R1 a connection gets a `log` message for a record iff it is connected, has chosen a level other than off for the
@@ -668,14 +674,14 @@ def run_rotation(part, tmp, window, present, foreign, ndays, mode, serial):
                      'mode': mode, 'after each rollover': labels})
 
 
-def judge_rotation(part, case, directory, before, today, ndays, step, text, exc):
+def judge_rotation(part, case, directory, before, today, ndays, step, text, exc, contents=None, word='rollover'):
     after = listing(directory)
     cur = f'{ROOT}-{day_name(today)}.log'
     earlier = sorted(n for n in before if DATED.match(n) and n < cur)
     keep = earlier[-(ndays - 1):] if ndays > 1 else []
     removable = set(earlier) - set(keep) if ndays >= 1 else set()
     removed = before - after
-    what = (f'directory {sorted(before)} retention max_days={ndays} mode={case["mode"]}, rollover #{step + 1} to {cur}'
+    what = (f'directory {sorted(before)} retention max_days={ndays} mode={case["mode"]}, {word} #{step + 1} to {cur}'
             + (f' (doRollover raised {exc!r})' if exc is not None else '') + f': afterwards {sorted(after)}')
     stepcase = dict(case, steps=step + 1)
     bad = False
@@ -697,6 +703,22 @@ def judge_rotation(part, case, directory, before, today, ndays, step, text, exc)
         bad = True
         part.violation(f'C20:rollover:record-not-in-the-file-being-written:{fclass}', stepcase,
                        f'{what}; the record logged after the rollover is not in {cur}')
+    if contents:
+        # every record written so far to a file that has to be there (today's and the N-1 newest earlier ones; all for N = 0)
+        for name in ([cur] + (keep if ndays else earlier)):
+            if name not in after or name not in contents:
+                continue
+            try:
+                with open(os.path.join(directory, name), encoding='utf-8') as f:
+                    data = f.read()
+            except OSError:
+                data = ''
+            missing = [t for t in contents[name] if t not in data]
+            if missing and not (name == cur and not written and missing == [text]):
+                bad = True
+                which = 'the-file-being-written' if name == cur else 'a-kept-earlier-file'
+                part.violation(f'C20:rollover:records-lost-from-{which}:{fclass}', stepcase,
+                               f'{what}; {name} no longer contains {missing} (the file was removed and created again?)')
     if ndays == 0 and removed:
         bad = True
         part.violation('C20:rollover:removed-although-retention-is-0', stepcase, f'{what}; removed {sorted(removed)}')
@@ -721,6 +743,100 @@ def judge_rotation(part, case, directory, before, today, ndays, step, text, exc)
     if exc is not None:
         label += f'-raises-{type(exc).__name__}'
     return label
+
+
+def run_records(part, tmp, window, present, foreign, ndays, history, serial):
+    """record histories through the production path only (handler.emit; the real emit decides when to roll over):
+    history = [(gap in days, number of records), ...]; the handler starts on the last window day and writes one record;
+    then for every step the virtual clock advances by the gap and the records are written one by one.  After EVERY
+    record: F1 + every record written so far is still in its file (for the files that have to be there).  A gap of
+    g >= 2 days makes mlzlog roll over g times in a row, once per record, to the same file."""
+    case = {'kind': 'records', 'window': window, 'present': list(present), 'foreign': list(foreign), 'max_days': ndays,
+            'history': [list(h) for h in history], 'mode': 'records'}
+    part.evaluations += 1
+    part.states += 1
+    if ndays and any(g > 1 and n > 1 for g, n in history):
+        part.nontrivial += 1
+    logdir = os.path.join(tmp, f'rec{serial}')
+    directory = os.path.join(logdir, ROOT)
+    os.makedirs(directory)
+    contents = {}
+    for i in present:
+        name = f'{ROOT}-{day_name(i)}.log'
+        contents[name] = [f'old log of day {i}']
+        with open(os.path.join(directory, name), 'w') as f:
+            f.write(f'old log of day {i}\n')
+    for name in foreign:
+        path = os.path.join(directory, name)
+        if FOREIGN[name] == 'dir':
+            os.mkdir(path)
+            with open(os.path.join(path, 'inside.log'), 'w') as f:
+                f.write('x\n')
+        else:
+            with open(path, 'w') as f:
+                f.write('foreign\n')
+    today = window - 1
+    VT.set_day(today)
+    handler = frappy.logging.LogfileHandler(logdir, ROOT, max_days=ndays)
+    labels = []
+    nrec = 0
+    try:
+        for gap, count in [(0, 1)] + list(history):
+            today += gap
+            VT.set_day(today)
+            for _ in range(count):
+                before = listing(directory)
+                text = f'record {nrec + 1} written on day {today}'
+                contents.setdefault(f'{ROOT}-{day_name(today)}.log', []).append(text)
+                part.transitions += 1
+                handler.emit(make_record(text))
+                part.traces += 1
+                label = judge_rotation(part, case, directory, before, today, ndays, nrec, text, None, contents, 'record')
+                nrec += 1
+                labels.append(label)
+                if label.startswith('VIOLATION'):
+                    break
+            if labels[-1].startswith('VIOLATION'):
+                break
+    finally:
+        handler.close()
+        shutil.rmtree(logdir, ignore_errors=True)
+    gaps = 'gap>=2-then-several-records' if any(g > 1 and n > 1 for g, n in history) else 'no-repeated-rollover'
+    part.outcomes[f'records:{gaps}:N={"0" if not ndays else "1" if ndays == 1 else ">1"}:' + labels[-1]] += 1
+    if part.evaluations % 499 == 1:
+        part.sample({'sub': 'records', 'dated files (day index)': list(present), 'foreign': list(foreign), 'max_days': ndays,
+                     'history (gap days, records)': [list(h) for h in history], 'after each record': labels})
+
+
+RECORD_STEPS = [(g, n) for g in (1, 2, 3) for n in (1, 2, 3)]
+
+
+def records_cases(tier):
+    window = 6 if tier == 'quick' else 7
+    base4 = list(FOREIGN)[:4]
+    dirs = [(), tuple(range(window)), tuple(range(0, window, 2))]
+    foreigns = [(), tuple(base4)]
+    depth = 2
+    if tier != 'quick':
+        dirs += [(window - 1,), (0,), tuple(range(window - 2, window))]
+        foreigns += [('zzz.txt',), ('comlog',)]
+        depth = 3
+    return window, dirs, foreigns, depth
+
+
+def records_shard(shard):
+    _, ndays, di, fi = shard
+    part = core.Part()
+    window, dirs, foreigns, depth = records_cases(core.TIER)
+    tmp = tempfile.mkdtemp(prefix='vf-c20-')
+    serial = 0
+    try:
+        for history in itertools.product(RECORD_STEPS, repeat=depth):
+            serial += 1
+            run_records(part, tmp, window, dirs[di], foreigns[fi], ndays, history, serial)
+    finally:
+        shutil.rmtree(tmp, ignore_errors=True)
+    return part
 
 
 def rotation_cases(tier):
@@ -805,6 +921,12 @@ def run(ctx):
         ctx.pmap(rotation_shard, [('rotation', n, mode, ch) for n in range(8) for mode in modes for ch in range(ROT_CHUNKS)],
                  name='rotation')
         info.update(rotation_window_days=window, rotation_foreign_sets=len(foreigns), rotation_modes=modes)
+    if want('records'):
+        window, dirs, foreigns, depth = records_cases(ctx.tier)
+        ctx.pmap(records_shard, [('records', n, di, fi) for n in range(8) for di in range(len(dirs)) for fi in range(len(foreigns))],
+                 name='records')
+        info.update(record_history_steps=depth, record_history_alphabet=len(RECORD_STEPS), record_directories=len(dirs),
+                    record_foreign_sets=len(foreigns))
     ctx.rule = (
         f'routing/bfs: every abstract state (level table of {b["nconn"]} connections x 2 modules + disconnected flags'
         f'{", one representative per permutation class of connections" if b["symmetric"] else ""}) reachable in the reference '
@@ -818,7 +940,10 @@ def run(ctx):
         f'routing/histories: every operation sequence (emit included) of length <= {b["hist_depth"]} on 2 connections, no merging, and '
         f'every sequence of length {b["hist_depth"] + 1}..{b["reduced_depth"]} over the alphabet without emits and with one '
         'representative refused level, each followed by the full probe; '
-        'rotation: every subset of dated log files in the window x foreign entry sets x max_days 0..7 x 3 rollovers. '
+        'rotation: every subset of dated log files in the window x foreign entry sets x max_days 0..7 x 3 rollovers; '
+        f'records: every history of {2 if ctx.tier == "quick" else 3} steps (gap of 1..3 days, then 1..3 records) written through the real '
+        'emit on a virtual clock x max_days 0..7 x start directories x foreign sets, judged after every record (a gap of g days makes '
+        'g rollovers in a row to the same file). '
         'evaluations = (state, operation) transitions executed on the real node and probed + histories + scratch directories; distinct_nontrivial = bfs transitions that '
         'change the table or must be refused + histories mixing operation classes + rotations with retention and a non-empty '
         'directory; states = abstract states explored + histories + directories; transitions = operations applied to the real '
@@ -837,7 +962,14 @@ def run(ctx):
 
 def replay(case):
     part = core.Part()
-    if case['kind'] == 'rotation':
+    if case['kind'] == 'records':
+        tmp = tempfile.mkdtemp(prefix='vf-c20-')
+        try:
+            run_records(part, tmp, case['window'], tuple(case['present']), tuple(case['foreign']), case['max_days'],
+                        [tuple(h) for h in case['history']], 1)
+        finally:
+            shutil.rmtree(tmp, ignore_errors=True)
+    elif case['kind'] == 'rotation':
         tmp = tempfile.mkdtemp(prefix='vf-c20-')
         try:
             run_rotation(part, tmp, case['window'], tuple(case['present']), tuple(case['foreign']), case['max_days'],
